@@ -42,6 +42,8 @@ def responsible(cfg, ns, event):
         return 'func'
     if style == 'catchall':
         return 'catchall'
+    if event in (cfg.get('global_events') or []):
+        return 'global'
     if cfg['global_catchall']:
         return 'global*'
     if style == 'class':
@@ -60,6 +62,9 @@ class History:
             serializer=rng.choice(['default', 'default', 'msgpack']),
             async_handlers=rng.random() < 0.5,
             global_catchall=rng.random() < 0.3,
+            # a function handler under the '*' namespace for one event only
+            # (it must not disturb the routing of the others)
+            global_events=['ev_g'] if rng.random() < 0.4 else [],
             namespaces_opt=rng.choice(['*', served]),
             coroutines=rng.random() < 0.7, returns={}, delays={})
         self.r = S.Runner(self.cfg)
@@ -75,7 +80,8 @@ class History:
         w = {'case_index': self.index, 'kind': self.kind,
              'config': {k: self.cfg[k] for k in (
                  'serializer', 'served', 'style', 'async_handlers',
-                 'global_catchall', 'namespaces_opt', 'coroutines')},
+                 'global_catchall', 'global_events', 'namespaces_opt',
+                 'coroutines')},
              'history': self.ops[-25:], 'failing_op': res['op'],
              'sent': {str(k): v for k, v in res.get('sent', {}).items()},
              'events': res.get('events'), 'exc': res.get('exc'),
@@ -142,7 +148,7 @@ class History:
             for h in mine:
                 used.add(h[7])
             want_calls = 1 if who in ('func', 'catchall', 'global*',
-                                      'class') else 0
+                                      'global', 'class') else 0
             ctx.count('events_judged')
             if len(mine) != want_calls:
                 return self.fail(
@@ -444,6 +450,72 @@ def race_threaded(ctx, k):
                  {'part': 'race_threaded', 'cause': cause, 'log': w['log']})
 
 
+def fault_recovery(ctx, k):
+    """A handler raises for one event (text or binary, with or without id):
+    that event is not acknowledged, and every following event of the same
+    client (and of the others) is handled and acknowledged normally."""
+    rng = ctx.case_rng(6 * 10 ** 7 + k)
+    kind = 'sync' if k % 2 == 0 else 'async'
+    style = rng.choice(['func', 'class', 'catchall'])
+    cfg = S.default_config(
+        kind=kind, served=['/'], style={'/': style},
+        serializer=rng.choice(['default', 'default', 'msgpack']),
+        async_handlers=rng.random() < 0.5, coroutines=rng.random() < 0.7,
+        returns={2: 'r2', 3: {'b': b'xy'}, 4: None}, faults=[2])
+    r = S.Runner(cfg)
+    w = {'part': 'fault_recovery', 'case_index': k, 'kind': kind,
+         'config': {kk: cfg[kk] for kk in ('style', 'serializer',
+                                           'async_handlers', 'coroutines')}}
+    try:
+        r.step(['open', 1])
+        r.step(['connect', 1, '/', None])     # handler invocation 0
+        r.step(['open', 2])
+        r.step(['connect', 2, '/', None])     # handler invocation 1
+        bad_args = rng.choice([[1, b'blob', {'k': [b'']}], [1, 'text'],
+                               [1, b'only']])
+        res1 = r.step(['event', 1, '/', 'ev0', bad_args,
+                       rng.choice([None, 5])])   # invocation 2 raises
+        res2 = r.step(['event', 1, '/', 'ev1', [2, 'after'], 6])
+        res3 = r.step(['event', 1, '/', 'ev2', [3, b'bin', [b'x']], 7])
+        res4 = r.step(['event', 2, '/', 'ev0', [4, b'other'], 8])
+        ctx.count('handler_fault_recoveries')
+        inv1 = [e for e in res1['events'] if e[0] == 'handler' and
+                e[1] == 'event']
+        acks1 = [p for p in res1['sent'].get(1, [])
+                 if p['type'] in (R.ACK, R.BINARY_ACK)]
+        if len(inv1) != 1 or acks1:
+            ctx.violation(None, 'event whose handler raises: %d invocations, '
+                          '%d ACKs' % (len(inv1), len(acks1)),
+                          dict(w, result=res1.get('sent')))
+            return
+        for res, T, tok, pid, ret in ((res2, 1, 2, 6, 'r2'),
+                                      (res3, 1, 3, 7, {'b': b'xy'}),
+                                      (res4, 2, 4, 8, None)):
+            inv = [e for e in res['events'] if e[0] == 'handler' and
+                   e[1] == 'event' and e[5] and e[5][0] == tok]
+            acks = [p for p in res['sent'].get(T, [])
+                    if p['type'] in (R.ACK, R.BINARY_ACK) and p['id'] == pid]
+            want = gen.expected_args(ret)
+            if len(inv) != 1 or len(acks) != 1 or \
+                    not R.deep_eq(acks[0]['data'], want) or \
+                    res.get('errors'):
+                ctx.violation(
+                    None, 'after a handler of this server raised for an '
+                    'earlier %s event, event %d of transport %d: %d '
+                    'invocations, ACKs %r, errors %r' % (
+                        'binary' if R.has_bytes(bad_args) else 'text', tok,
+                        T, len(inv), [[p['type'], p['id'], p['data']]
+                                      for p in acks],
+                        [e.get('exc') for e in res.get('errors') or []]),
+                    dict(w, faulting_args=bad_args))
+                return
+        ctx.case(('fault_recovery', kind, style, cfg['serializer'],
+                  cfg['async_handlers'], R.has_bytes(bad_args)),
+                 dict(w, faulting_args=bad_args))
+    finally:
+        r.close()
+
+
 def run_races(ctx, share):
     """Events racing with a disconnect in progress: asyncio server through
     the interleaving explorer of C04 part (b) (scenarios that contain the
@@ -456,6 +528,7 @@ def run_races(ctx, share):
     while ctx.time_left() > t_end and not ctx.too_many_violations():
         for _ in range(8):
             race_threaded(ctx, k)
+            fault_recovery(ctx, k)
             k += 1
         spec = sp[(k // 8) % len(sp)]
         rng = ctx.case_rng(2 * 10 ** 7 + k)
@@ -481,6 +554,7 @@ def run(ctx):
     ctx.require('acks_checked', 30)
     ctx.require('order_checks', 5)
     ctx.require('racing_events_threaded', 10)
+    ctx.require('handler_fault_recoveries', 10)
     ctx.require('racing_events_while_disconnecting', 10)
     run_races(ctx, (ctx.budget or 30) * 0.2)
     k = 0
@@ -494,6 +568,8 @@ def replay(ctx, w):
     wi = w['witness']
     if wi.get('part') == 'race_threaded':
         return race_threaded(ctx, wi['case_index'])
+    if wi.get('part') == 'fault_recovery':
+        return fault_recovery(ctx, wi['case_index'])
     if wi.get('part') == 'sched':
         from checks import c04_sched
         return c04_sched.replay(ctx, w)
